@@ -1410,12 +1410,28 @@ def format_printf(fmt, args):
         if conv == '%':
             buf += '%'
         else:
+            if '.*' in spec and ai < len(args) and isinstance(args[ai], int):
+                # precision passed as an argument
+                spec = spec.replace('.*', '.%d' % args[ai], 1)
+                ai += 1
             v = args[ai] if ai < len(args) else unk('missing-arg')
             ai += 1
             if conv == 's' and isinstance(v, str) and spec == '%s':
                 buf += v
             elif conv == 'c' and isinstance(v, int) and spec == '%c':
                 buf += chr(v & 0xff)
+            elif conv in 'gGeEfF' and isinstance(v, (float, int)) and not isinstance(v, bool) and '*' not in spec:
+                import re as _re
+                m_ = _re.fullmatch(r'%([-0 +#]*)(\d*)(?:\.(\d+))?[lL]?([gGeEfF])', spec)
+                x_ = float(v)
+                if m_ and x_ == x_ and abs(x_) != float('inf'):
+                    fl, wd, pr, cv = m_.groups()
+                    buf += ('%' + fl + wd + ('.' + pr if pr is not None else '') + cv) % x_      # correctly rounded, as the host printf
+                else:
+                    if buf:
+                        parts.append(buf)
+                        buf = ''
+                    parts.append(('fmt', spec, v))
             elif conv in 'duixXo' and isinstance(v, int) and not isinstance(v, bool):
                 import re as _re
                 m_ = _re.fullmatch(r'%([-0 +#]*)(\d*)(?:hh|h|ll|l|q|j|z|t)?([duixXo])', spec)
